@@ -37,6 +37,7 @@ struct Node {
   int nrDying = 0;
   int pref = 0;  // bit0 trusted prefer, bit1 trusted avoid, bit2 user prefer, bit3 user avoid
   int oomGroup = 0;
+  int ioPadTo = 0;        // pad the first io.stat line with an extra (ignored) key up to this text length
   bool noIoStat = false;  // io.stat unreadable on this tick (the cgroup itself stays)
   bool noPgscan = false;  // memory.stat carries no pgscan line on this tick
 };
@@ -93,8 +94,17 @@ void writeNode(const Node& n) {
   world::setFile(n.rel, "memory.pressure", psi(n.m10, n.m60, n.m300, n.mtotal));
   world::setFile(n.rel, "io.pressure", psi(n.i10, n.i60, n.i300, n.itotal));
   std::string io;
-  for (auto& d : n.io)
-    io += d.id + " rbytes=" + std::to_string(d.rb) + " wbytes=" + std::to_string(d.wb) + " rios=" + std::to_string(d.ri) + " wios=" + std::to_string(d.wi) + " dbytes=" + std::to_string(d.db) + " dios=" + std::to_string(d.di) + "\n";
+  bool firstLine = true;
+  for (auto& d : n.io) {
+    std::string line = d.id + " rbytes=" + std::to_string(d.rb) + " wbytes=" + std::to_string(d.wb) + " rios=" + std::to_string(d.ri) + " wios=" + std::to_string(d.wi) + " dbytes=" + std::to_string(d.db) + " dios=" + std::to_string(d.di);
+    if (firstLine && n.ioPadTo > (int)line.size() + 12) {
+      // kernels with blk-iocost / blk-iolatency append further keys; the line can have any length
+      line += " cost.usage=";
+      line += std::string((size_t)n.ioPadTo - line.size(), '7');
+    }
+    firstLine = false;
+    io += line + "\n";
+  }
   if (n.noIoStat)
     world::rmFile(n.rel, "io.stat");
   else
@@ -366,6 +376,16 @@ struct C15 : vr::Driver {
           s.mutateRel = "s/b";
           scs.push_back(s);
         }
+    }
+    // F4b: io.stat whose first line has every text length from 70 to 400 (extra keys as newer kernels write them): every
+    // device line must still be seen, whatever the reader's buffering
+    for (int len = 70; len <= 400; len++) {
+      if (!th && len > 140 && !(len >= 250 && len <= 258) && !(len >= 378 && len <= 384)) continue;
+      scs.push_back(two("io.stat first line padded to " + std::to_string(len) + " characters", [len](Tick& t, int k) {
+        Node& a = node(t, "s/a");
+        a.io = {{"8:0", 4096LL * (k + 1), 8192, (long long)k + 1, 2, 0, 0}, {"8:16", 1LL << 20, (1LL << 20) * (k + 1), 256, 256LL * (k + 1), 0, 0}};
+        a.ioPadTo = len;
+      }));
     }
     // F6: directory entries without type information
     {
